@@ -122,21 +122,22 @@ Inductive Chain (bl : list nat) : nat -> nat -> Prop :=
 | C_step r m s : In r bl -> subject r = Some m -> Chain bl m s -> Chain bl r s.
 
 Lemma walk_spec bl g : forall fuel cur, cur < fuel ->
-  exists b, walk subject bl g fuel cur = Some b /\
-            (b = true <-> exists s, Chain bl cur s /\ In s g).
+  exists b, walk subject manifest bl g fuel cur = Some b /\
+            (b = true <-> exists s, Chain bl cur s /\ In s g /\ manifest s = true).
 Proof.
   induction fuel as [|f IH]; intros cur Hlt; [lia|]. simpl.
   destruct (memb cur bl) eqn:Eb.
   - apply memb_In in Eb. destruct (subject cur) as [s|] eqn:Es.
-    + destruct (memb s g) eqn:Eg.
+    + destruct (memb s g && manifest s) eqn:Eg.
       * exists true. split; [reflexivity|]. split; [|reflexivity]. intros _.
-        exists s. split; [now apply C_one|now apply memb_In].
+        apply andb_true_iff in Eg as [Eg Em].
+        exists s. split; [now apply C_one|split; [now apply memb_In|assumption]].
       * pose proof (subj_lt _ _ Es) as Hs.
         destruct (IH s ltac:(lia)) as (b & Hw & Hb). exists b. split; [assumption|].
         rewrite Hb. split.
         -- intros (s' & Hc & Hg). exists s'. split; [eapply C_step; eauto|assumption].
-        -- intros (s' & Hc & Hg). inversion Hc; subst.
-           ++ assert (s' = s) by congruence. subst. apply memb_false in Eg. contradiction.
+        -- intros (s' & Hc & Hg & Hm). inversion Hc; subst.
+           ++ assert (s' = s) by congruence. subst. apply memb_In in Hg. rewrite Hg, Hm in Eg. discriminate.
            ++ assert (m = s) by congruence. subst. eauto.
     + exists false. split; [reflexivity|]. split; [discriminate|].
       intros (s' & Hc & _). inversion Hc; congruence.
@@ -173,7 +174,8 @@ Let ix := idx st.
    a live node, what is reachable from r *)
 Inductive Live : nat -> Prop :=
 | L_tag t n x : In (RTag t, n) ix -> Reach bl n x -> Live x
-| L_ref d r s x : In (RDig d, r) ix -> Chain bl r s -> Live s -> Reach bl r x -> Live x.
+| L_ref d r s x : In (RDig d, r) ix -> Chain bl r s -> Live s -> manifest s = true ->
+                  Reach bl r x -> Live x.
 
 Lemma Live_in x : Live x -> In x bl.
 Proof. destruct 1; eapply Reach_in; eauto. Qed.
@@ -212,8 +214,8 @@ Proof.
 Qed.
 
 Lemma do_walk_fixed g n :
-  exists b, do_walk subject cfg_fixed bl g n = Some b /\
-            (b = true <-> exists s, Chain bl n s /\ In s g).
+  exists b, do_walk subject manifest cfg_fixed bl g n = Some b /\
+            (b = true <-> exists s, Chain bl n s /\ In s g /\ manifest s = true).
 Proof. unfold do_walk. cbn [fixF1 cfg_fixed]. apply walk_spec. lia. Qed.
 
 (* one step of a pass *)
@@ -224,7 +226,7 @@ Lemma keep_step_spec g kept ch n :
     GInv g' kept' /\
     (forall x, In x g -> In x g') /\
     ((ch' = ch /\ g' = g /\ kept' = kept /\
-      (In n kept \/ ~ exists s, Chain bl n s /\ In s g)) \/
+      (In n kept \/ ~ exists s, Chain bl n s /\ In s g /\ manifest s = true)) \/
      (ch' = true /\ length kept' = S (length kept))).
 Proof.
   intros I Hc. unfold keep_step. destruct (memb n kept) eqn:Ek.
@@ -233,13 +235,13 @@ Proof.
   - apply memb_false in Ek. destruct (do_walk_fixed g n) as (b & Hw & Hb). rewrite Hw.
     destruct b.
     + exists (closure succ bl n ++ g), (n :: kept), true. split; [reflexivity|].
-      destruct Hb as [Hb _]. destruct (Hb eq_refl) as (s & Hch & Hs).
+      destruct Hb as [Hb _]. destruct (Hb eq_refl) as (s & Hch & Hs & Hms).
       assert (Hnb : In n bl) by (inversion Hch; assumption).
       apply candidates_In in Hc as Hc'. destruct Hc' as ((d & Hd) & _).
       split; [|split; [intros; apply in_or_app; now right|right; split; reflexivity]].
       constructor.
       * intros x Hx. apply in_app_or in Hx as [Hx|Hx]; [|now apply (gi_sound _ _ I)].
-        apply closure_spec in Hx. eapply L_ref; eauto. now apply (gi_sound _ _ I).
+        apply closure_spec in Hx. eapply (L_ref d n s x); eauto. now apply (gi_sound _ _ I).
       * intros x s' Hx Hs' Hb'. apply in_or_app. apply in_app_or in Hx as [Hx|Hx].
         -- left. apply closure_spec. apply closure_spec in Hx. eapply Reach_snoc; eauto.
         -- right. eapply (gi_closed _ _ I); eauto.
@@ -260,7 +262,7 @@ Lemma pass_spec : forall l g kept ch,
     fold_left (keep_step succ subject manifest cfg_fixed bl) l (g, kept, ch, false) = (g', kept', ch', false) /\
     GInv g' kept' /\
     ((ch' = ch /\ g' = g /\ kept' = kept /\
-      forall n, In n l -> In n kept \/ ~ exists s, Chain bl n s /\ In s g) \/
+      forall n, In n l -> In n kept \/ ~ exists s, Chain bl n s /\ In s g /\ manifest s = true) \/
      (ch' = true /\ length kept < length kept')).
 Proof.
   induction l as [|n l IH]; intros g kept ch I Hl.
@@ -288,7 +290,7 @@ Lemma gc_passes_spec : forall fuel i g kept,
   exists g' kept',
     gc_passes succ subject manifest cfg_fixed bl ords fuel i g kept = Some (g', kept') /\
     GInv g' kept' /\
-    forall n, In n (candidates ix) -> In n kept' \/ ~ exists s, Chain bl n s /\ In s g'.
+    forall n, In n (candidates ix) -> In n kept' \/ ~ exists s, Chain bl n s /\ In s g' /\ manifest s = true.
 Proof.
   induction fuel as [|f IH]; intros i g kept I Hf.
   - pose proof (kept_bound _ _ I). lia.
@@ -311,7 +313,7 @@ Proof.
     as (g & kept & Hp & I & Hfin).
   rewrite Hp. eexists _, g. split; [reflexivity|]. split.
   - intro x. split; [apply (gi_sound _ _ I)|].
-    intro HL. induction HL as [t n x Ht Hr|d r s x Hd Hc _ IHs Hr].
+    intro HL. induction HL as [t n x Ht Hr|d r s x Hd Hc _ IHs Hms Hr].
     + eapply closed_reach; [apply (gi_closed _ _ I)|exact Hr|].
       eapply (gi_roots _ _ I); eauto. eapply Reach_start; eauto.
     + eapply closed_reach; [apply (gi_closed _ _ I)|exact Hr|].
@@ -360,7 +362,7 @@ Proof.
     + now apply (gi_kept _ _ I).
     + assumption.
   - intros x Hx. apply (gi_sound _ _ I) in Hx.
-    induction Hx as [t n x Ht Hr|d r s x Hd Hc _ IHs Hr].
+    induction Hx as [t n x Ht Hr|d r s x Hd Hc _ IHs Hms Hr].
     + exists (RTag t, n). split; [|exact Hr]. apply in_or_app. left. apply filter_In. split; [assumption|reflexivity].
     + destruct (in_dec Nat.eq_dec r (tagged_nodes ix)) as [Ht|Ht].
       * apply tagged_nodes_In in Ht as (t & Ht). exists (RTag t, r). split; [|exact Hr].
@@ -1171,10 +1173,10 @@ Lemma gc_exact_final : forall succ subject manifest,
   forall kl ords st, same_elements ords (candidates (idx st)) ->
   exists st',
     gc succ subject manifest cfg_fixed kl ords st = (st', Ok) /\
-    (forall x, In x (blobs st') <-> In x (blobs st) /\ Live succ subject st x) /\
-    (forall x, In x (gnodes st') <-> Live succ subject st x) /\
+    (forall x, In x (blobs st') <-> In x (blobs st) /\ Live succ subject manifest st x) /\
+    (forall x, In x (gnodes st') <-> Live succ subject manifest st x) /\
     (forall t n, In (RTag t, n) (idx st') <-> In (RTag t, n) (idx st)) /\
-    (forall x p, In p (preds succ (gnodes st') x) <-> Live succ subject st p /\ In x (succ p)) /\
+    (forall x p, In p (preds succ (gnodes st') x) <-> Live succ subject manifest st p /\ In x (succ p)) /\
     (forall s, In s (strays st') <-> In s (strays st) /\ (s_known s && s_valid s = false)) /\
     autogc st' = autogc st.
 Proof.
